@@ -702,6 +702,36 @@ func genSource(rng *vh.Rng) string {
 	return rng.PickS([]string{"a=b", "{a=b,c=d}", genExpr(rng, 2), "name like \"x*\"", "{a=\"b\"}}", "{}", "a=b or c=d and not e=f"})
 }
 
+// numPool: OFFSET / LIMIT texts for EVERY statement kind that takes them: zero, small, negative, the int32/uint32/int64 extremes and
+// one beyond, non-integers
+var numPool = []string{"0", "1", "2", "3", "-1", "-2", "-0", "+1", "1000", "1001", "10000", "10001", "2147483647", "2147483648", "-2147483648", "-2147483649", "4294967295", "4294967296",
+	"9223372036854775807", "9223372036854775808", "-9223372036854775808", "-9223372036854775809", "99999999999999999999", "1.5", "1e3"}
+
+func offLim(rng *vh.Rng) string {
+	q := ""
+	if rng.Chance(3, 4) {
+		q += " offset " + rng.PickS(numPool)
+	}
+	if rng.Chance(3, 4) {
+		q += " limit " + rng.PickS(numPool)
+	}
+	return q
+}
+
+// f55Class: an admin statement SHOW PARTITIONS with a negative OFFSET or LIMIT (it reaches partition.Service.Partitions)
+func f55Class(q string) bool {
+	hit := false
+	vh.Recover(func() {
+		l, err := lql.ParseLql(q)
+		if err != nil || l.Show == nil || l.Show.Partitions == nil {
+			return
+		}
+		p := l.Show.Partitions
+		hit = (p.Offset != nil && *p.Offset < 0) || (p.Limit != nil && *p.Limit < 0)
+	})
+	return hit
+}
+
 func genLql(rng *vh.Rng) string {
 	ident := func() string { return genIdent(rng) }
 	expr := func(d int) string { return genExpr(rng, d) }
@@ -723,17 +753,14 @@ func genLql(rng *vh.Rng) string {
 		if rng.Chance(1, 3) {
 			q += " position " + rng.PickS([]string{"tail", "head", "\"j=000000000000000a0000000b\"", "\"zz\""})
 		}
-		if rng.Chance(1, 3) {
-			q += " offset " + rng.PickS([]string{"0", "-5", "10", "99999999999999999999"})
-		}
-		if rng.Chance(1, 3) {
-			q += " limit " + rng.PickS([]string{"0", "1", "100000", "-1"})
+		if rng.Chance(1, 2) {
+			q += offLim(rng)
 		}
 		return q
 	case 3:
-		return "show " + rng.PickS([]string{"partitions", "pipes", "partitions a=b offset 1 limit 2", "pipes offset -1"})
+		return "show " + rng.PickS([]string{"partitions", "pipes", "partitions a=b", "partitions {a=b}", "partitions " + genSource(rng)}) + offLim(rng)
 	case 4:
-		return "describe " + rng.PickS([]string{"partition a=b", "pipe p", "partition {", "pipe"})
+		return "describe " + rng.PickS([]string{"partition a=b", "partition {a=b}", "pipe p", "partition {", "pipe"}) + rng.PickS([]string{"", offLim(rng)})
 	case 5:
 		return "truncate" + rng.PickS([]string{"", " dryrun"}) + src() + rng.PickS([]string{"", " minsize 1k", " maxsize 10G", " before \"-1h\"", " maxdbsize 99999999999T", " minsize -1"})
 	case 6:
@@ -983,6 +1010,186 @@ func sectionRobust(rng *vh.Rng) {
 }
 
 // ---------------------------------------------------------------------------------------------
+// admin statements with OFFSET / LIMIT, in-process under recover (Admin.Execute and backend.Querier.Query run in the caller's goroutine)
+
+type adminCase struct {
+	Parts  int    `json:"parts"` // partitions written before
+	Kind   string `json:"kind"`  // showparts | showpipes | select | describe | query
+	Offset string `json:"offset,omitempty"`
+	Limit  string `json:"limit,omitempty"`
+	ROff   int    `json:"req_offset,omitempty"` // query: QueryRequest.Offset / Limit
+	RLim   int    `json:"req_limit,omitempty"`
+}
+
+func (c adminCase) text() string {
+	q := map[string]string{"showparts": "show partitions", "showpipes": "show pipes", "select": "select from adm=p0", "describe": "describe partition {adm=p0}", "query": "select from adm=p0"}[c.Kind]
+	if c.Offset != "" {
+		q += " offset " + c.Offset
+	}
+	if c.Limit != "" {
+		q += " limit " + c.Limit
+	}
+	return q
+}
+
+func optNum(s string) (string, bool) {
+	if s == "" {
+		return "none", true
+	}
+	n, err := strconv.ParseInt(s, 10, 64)
+	if err != nil {
+		return "", false
+	}
+	return strconv.FormatInt(n, 10), true
+}
+
+// f55Line: the model request for a SHOW PARTITIONS statement over n partitions ("" when an argument is not an int64)
+func f55Line(q string, n int) string {
+	line := ""
+	vh.Recover(func() {
+		l, err := lql.ParseLql(q)
+		if err != nil || l.Show == nil || l.Show.Partitions == nil {
+			return
+		}
+		o, li := "none", "none"
+		if p := l.Show.Partitions.Offset; p != nil {
+			o = strconv.Itoa(*p)
+		}
+		if p := l.Show.Partitions.Limit; p != nil {
+			li = strconv.Itoa(*p)
+		}
+		line = fmt.Sprintf("showparts %d %s %s", n, o, li)
+	})
+	if line == "" {
+		return "showparts 0 none none"
+	}
+	return line
+}
+
+func f55ModelPanics(q string) bool {
+	for _, n := range []int{0, 1, 2} {
+		if a := batch([]string{f55Line(q, n)}); len(a) == 1 && strings.HasPrefix(a[0], "panic f55=1") {
+			return true
+		}
+	}
+	return false
+}
+
+func runAdmin(sec *vh.Section, cases []adminCase, verbose bool) {
+	byParts := map[int][]int{}
+	for i, c := range cases {
+		byParts[c.Parts] = append(byParts[c.Parts], i)
+	}
+	impl := make([]callRes, len(cases))
+	for np, idxs := range byParts {
+		dir := lrsrv.NewDir()
+		srv, err := lrsrv.Start(dir, lrsrv.Opts{})
+		if err != nil {
+			res.Fatal(args.Out, "admin: %v", err)
+		}
+		for k := 0; k < np; k++ {
+			var wr api.WriteResult
+			srv.Client.Write(context.Background(), fmt.Sprintf("adm=p%d", k), "", []*api.LogEvent{{Timestamp: int64(k + 1), Message: "m"}, {Timestamp: int64(k + 2), Message: "n"}}, &wr)
+		}
+		srv.FlushWait()
+		for _, i := range idxs {
+			c := cases[i]
+			impl[i] = guarded(func() (string, error) {
+				if c.Kind == "query" || c.Kind == "select" {
+					req := &api.QueryRequest{Query: c.text(), Offset: c.ROff, Limit: c.RLim}
+					if c.Kind == "select" {
+						req.Limit = 10
+					}
+					r, err := srv.Querier.Query(context.Background(), req)
+					if err != nil {
+						return "", err
+					}
+					return fmt.Sprint(len(r.Events)), nil
+				}
+				r, err := srv.Admin.Execute(api.ExecRequest{Query: c.text()})
+				if err != nil {
+					return "", err
+				}
+				var k int
+				fmt.Sscanf(r.Output, "%d partitions", &k)
+				return fmt.Sprint(k), nil
+			})
+		}
+		srv.Stop()
+		os.RemoveAll(dir)
+	}
+	var lines []string
+	var li []int
+	for i, c := range cases {
+		if c.Kind != "showparts" {
+			continue
+		}
+		o, ok1 := optNum(c.Offset)
+		l, ok2 := optNum(c.Limit)
+		if ok1 && ok2 {
+			lines, li = append(lines, fmt.Sprintf("showparts %d %s %s", c.Parts, o, l)), append(li, i)
+		}
+	}
+	ans := map[int]string{}
+	for k, a := range batch(lines) {
+		ans[li[k]] = a
+	}
+	for i, c := range cases {
+		im := impl[i]
+		res.Eval(sec, fmt.Sprint(c))
+		res.Dist(sec, c.Kind+"/"+im.Kind)
+		m, modelled := ans[i]
+		if verbose {
+			fmt.Printf("admin %q over %d partitions: impl=%s model=%s\n", c.text(), c.Parts, im.line(), m)
+		}
+		if im.Kind == "panic" || im.Kind == "timeout" {
+			f := vh.SpecFailure{Section: "admin", Kind: map[string]string{"panic": "panic", "timeout": "hang"}[im.Kind], Input: c, Impl: im.Kind + " " + im.Val, Spec: "a result or an error",
+				Model: m, ImplEqModel: modelled && modelKind(m) == im.Kind, What: "the statement '" + c.text() + "' is not answered with a result or an error"}
+			if f.ImplEqModel && strings.Contains(m, "f55=1") && f55Class(c.text()) {
+				f.Finding = "F55"
+			}
+			res.SpecFail(f)
+		}
+		if modelled {
+			want := m
+			if modelKind(m) == "panic" {
+				want = "panic"
+			}
+			if im.line() != want {
+				res.Mismatch(vh.Mismatch{Section: "admin", Function: "backend.cmdShowPartitions + partition.Service.Partitions (paging)", Input: c, Impl: im.line(), Model: m})
+			}
+		}
+	}
+}
+
+func sectionAdmin(rng *vh.Rng) {
+	sec := res.Section("admin", "system-correspondence",
+		"statements that take OFFSET / LIMIT, executed in-process under recover on a real server with 0, 1 and 3 partitions: SHOW PARTITIONS for EVERY pair from the boundary pool {absent, 0, 1, 2, 3, -1, -2, -0, +1, 1000, 1001, int32/uint32/int64 extremes and one beyond, 1.5, 1e3} — outcome and page size compared with the Lean model of the paging arithmetic; SHOW PIPES, SELECT (text offsets/limits through backend.Querier.Query), DESCRIBE with the same pool, and backend.Querier.Query with QueryRequest.Offset / Limit at 0, ±1 and the int32 / int64 extremes — oracle: a result or an error. non-trivial = every case")
+	pool := append([]string{""}, numPool...)
+	var cases []adminCase
+	for _, np := range []int{0, 1, 3} {
+		for _, o := range pool {
+			for _, l := range pool {
+				cases = append(cases, adminCase{Parts: np, Kind: "showparts", Offset: o, Limit: l})
+			}
+		}
+		for _, kind := range []string{"showpipes", "select", "describe"} {
+			for k := 0; k < 60; k++ {
+				cases = append(cases, adminCase{Parts: np, Kind: kind, Offset: rng.PickS(pool), Limit: rng.PickS(pool)})
+			}
+		}
+		ext := []int{0, 1, -1, 10000, 10001, 1<<31 - 1, -1 << 31, 1<<63 - 1, -1 << 63}
+		for _, ro := range ext {
+			for _, rl := range ext {
+				cases = append(cases, adminCase{Parts: np, Kind: "query", ROff: ro, RLim: rl})
+			}
+		}
+	}
+	runAdmin(sec, cases, false)
+	res.Done(sec)
+}
+
+// ---------------------------------------------------------------------------------------------
 // end to end, in a child process per batch
 
 type e2eReq struct {
@@ -1071,13 +1278,18 @@ func runE2EBatch(sec *vh.Section, b e2eBatch, verbose bool) {
 		if last >= 0 && last < len(b.Reqs) {
 			culprit = e2eBatch{Reqs: b.Reqs[:last+1]}
 		}
-		res.SpecFail(vh.SpecFailure{Section: "e2e", Kind: "server-died", Input: culprit, Impl: fmt.Sprintf("child: %v; alive=%v; %s; %s", werr, out.Alive, out.Note, firstLines(errb.String(), 4)),
+		f55 := ""
+		if last >= 0 && last < len(b.Reqs) && b.Reqs[last].Kind == "exec" && f55Class(b.Reqs[last].Query) &&
+			strings.Contains(errb.String(), "partition.(*Service).Partitions") && f55ModelPanics(b.Reqs[last].Query) {
+			f55 = "F55"
+		}
+		res.SpecFail(vh.SpecFailure{Section: "e2e", Kind: "server-died", Input: culprit, Finding: f55, ImplEqModel: f55 != "", Impl: fmt.Sprintf("child: %v; alive=%v; %s; %s", werr, out.Alive, out.Note, firstLines(errb.String(), 4)),
 			Spec: "the server answers every request and is alive afterwards", What: "a request ended the server process or left it unable to answer (last request sent: the last of the recorded batch)"})
 		return
 	}
 	for _, rb := range out.Readback {
 		res.SpecFail(vh.SpecFailure{Section: "e2e", Kind: "acknowledged-write-unreadable", Input: b, Impl: rb, Spec: "every event of an acknowledged write is returned by a query of its partition",
-			What: "a Write was acknowledged but reading the partition back fails or does not return its events (a stored record that no later read can decode)"})
+			What: "a Write was acknowledged but reading the partition back fails, does not return its events, or returns an event with another event's fields (a stored record that no later read can decode correctly)"})
 	}
 	for i, a := range out.Answers {
 		if e := b.Reqs[i].Expect; e != "" && a != e && a != "timeout" && a != "transport-error" {
@@ -1129,6 +1341,7 @@ func sectionE2E(rng *vh.Rng) {
 	if args.Thorough {
 		batches = 40
 	}
+	var f55Own []string
 	for bi := 0; bi < batches; bi++ {
 		var b e2eBatch
 		// read-back family: writes to partitions rb=<n> (some with field blocks around and above 16384 bytes), then filters that
@@ -1168,6 +1381,29 @@ func sectionE2E(rng *vh.Rng) {
 		// the former F13 class (a length varint >= 2^63 - idx) no longer ends the process: it goes to the real server too and
 		// must be refused with an error
 		b.Reqs = append(b.Reqs, f13Bodies(rng)...)
+		// an event WITH fields followed by events WITHOUT fields in one partition (a reader that keeps state between events must
+		// not hand the first event's fields to the next), long and short messages alternating
+		{
+			tags := fmt.Sprintf("rb=mixp%d", bi)
+			evs := []e2eE{{1, strings.Repeat("with-fields ", 40), "a=" + strings.Repeat("v", 200) + ",c=" + strings.Repeat("w", 250)},
+				{2, "nofields " + strings.Repeat("x", 700), ""}, {3, "nofields y", ""}, {4, "with-fields again", "k=v"}, {5, "nofields z", ""}}
+			b.Reqs = append(b.Reqs, e2eReq{Kind: "write", Tags: tags, Evs: evs})
+			b.Reqs = append(b.Reqs, e2eReq{Kind: "query", Query: "select from " + tags + " where fields:a != \"zz\" or fields:k = \"v\" limit 50", Lim: 50})
+		}
+		// a packet well below MaxRecordSize (1 MiB) whose one event is bigger than that once its field text is unquoted: every
+		// quoted run of 85 invalid UTF-8 bytes (87 bytes of text) is a 255-byte item. It must be refused, or be readable.
+		if bi == 0 {
+			var sb strings.Builder
+			item := "\"" + strings.Repeat("\xff", 85) + "\""
+			for k := 0; k < 2100; k++ {
+				if k > 0 {
+					sb.WriteByte(',')
+				}
+				sb.WriteString(item + "=" + item)
+			}
+			b.Reqs = append(b.Reqs, e2eReq{Kind: "write", Tags: "rb=bigrec", Evs: []e2eE{{1, "ordinary", "a=b"}}})
+			b.Reqs = append(b.Reqs, e2eReq{Kind: "write", Tags: "rb=bigrec", Evs: []e2eE{{2, "expands", sb.String()}}})
+		}
 		for len(b.Reqs) < 60 {
 			switch rng.Intn(8) {
 			case 0, 1:
@@ -1197,6 +1433,12 @@ func sectionE2E(rng *vh.Rng) {
 				}
 				if rng.Bool() {
 					q = mutateText(rng, q)
+				}
+				if f55Class(q) {
+					// SHOW PARTITIONS with a negative OFFSET/LIMIT ends the process on a tree without the guard (finding F55): it gets
+					// children of its own below and is exercised exhaustively, under recover, in the admin section
+					f55Own = append(f55Own, q)
+					continue
 				}
 				b.Reqs = append(b.Reqs, e2eReq{Kind: "exec", Query: q})
 			case 5:
@@ -1234,6 +1476,13 @@ func sectionE2E(rng *vh.Rng) {
 			res.Sample(map[string]interface{}{"section": "e2e", "first_requests": b.Reqs[:3]})
 		}
 		runE2EBatch(sec, b, false)
+	}
+	// the F55 class, one statement per child (a partition first, so that LIMIT is reached): at most three per run
+	for i, q := range f55Own {
+		if i >= 3 {
+			break
+		}
+		runE2EBatch(sec, e2eBatch{Reqs: []e2eReq{{Kind: "write", Tags: "rb=f55", Evs: []e2eE{{Ts: 1, Msg: "m"}}}, {Kind: "exec", Query: q}}}, false)
 	}
 	// F25, in its own child
 	runNesting(sec, nestCase{Depth: 20000, MaxStackMB: 64}, false)
@@ -1357,6 +1606,13 @@ func childE2E(in, logf, outf, dir string) {
 		}
 		if err != nil || qr.Err != nil || len(qr.Events) != n {
 			out.Readback = append(out.Readback, fmt.Sprintf("%s: %d events acknowledged, query returned %d, err=%v operr=%v", tags, n, len(qr.Events), err, qr.Err))
+			continue
+		}
+		for _, e := range qr.Events {
+			if strings.HasPrefix(e.Message, "nofields") && e.Fields != "" {
+				out.Readback = append(out.Readback, fmt.Sprintf("%s: the event %.20q was written without fields and is served with fields %.60q", tags, e.Message, e.Fields))
+				break
+			}
 		}
 	}
 	sort.Strings(out.Readback)
